@@ -2377,7 +2377,51 @@ async def cancelled_exit_with_a_task_still_inside_is_reported():
     return ok, f"{out}"
 
 
-SCENARIOS = {f.__name__: f for f in (factory_for_an_iterable_class_releases_its_waiter, component_service_task_keeps_its_teardown_action, callback_registered_from_elsewhere_runs_in_its_own_context, task_started_on_an_outer_context_belongs_to_it, cancelled_exit_with_a_task_still_inside_is_reported, injected_coroutine_in_a_component_waits_like_the_explicit_lookup, same_configuration_object_started_twice, injected_lookups_happen_in_signature_order, closing_anothers_context_leaves_the_closers_own_alone, lookup_made_inside_awaited_after_the_block_is_refused, overridden_default_types_need_not_exist, queued_event_keeps_its_source, failed_adds_of_unusual_shapes_change_nothing, partly_shadowed_factory_releases_its_waiter, refused_resource_of_a_failed_start_leaves_no_callback, registration_during_a_service_tasks_stop, annotations_mean_what_they_say, default_name_is_remapped_only_while_starting, parent_is_the_current_context_itself, refused_entry_changes_nothing, left_from_another_task_is_closed_all_the_same, factories_waiting_on_each_other_complete, nested_tree_publications_release_waiters, timeout_watches_every_tree, every_registration_of_a_component_is_torn_down, generic_alias_types_are_found_by_every_lookup, optional_injection_is_the_optional_lookup, start_value_and_failed_starts, hard_coded_kwargs_reach_the_child_as_they_are,
+async def tree_started_in_a_nested_context_belongs_to_it():
+    """C05 / C07: everything the components register belongs to the context that was CURRENT when start_component was
+    called -- a nested one here, not the outermost: it is visible there (and not above), and it is torn down when
+    THAT context is left, in reverse order -- after a successful startup and after one that a component made fail"""
+    from asphalt.core import Component, ComponentStartError, add_resource, add_teardown_callback, start_component
+    out = {}
+    for label, fails in (("started", False), ("failed", True)):
+        log = []
+
+        class Early(Component):
+            async def start(self):
+                add_resource(A("early"), "early", teardown_callback=lambda: log.append("early resource"))
+                add_teardown_callback(lambda: log.append("early callback"))
+
+        class Late(Component):
+            async def start(self):
+                await anyio.sleep(0.05)
+                if fails:
+                    raise KeyError("late failed")
+                add_teardown_callback(lambda: log.append("late callback"))
+
+        class Root(Component):
+            def __init__(self):
+                self.add_component("early", Early)
+                self.add_component("late", Late)
+        async with Context() as top:
+            async with Context() as nested:
+                try:
+                    await start_component(Root, {}, timeout=3)
+                    how = "returned"
+                except ComponentStartError:
+                    how = "ComponentStartError"
+                seen = {"how": how, "in_nested": nested.get_resource_nowait(A, "early", optional=True) is not None,
+                        "in_top": top.get_resource_nowait(A, "early", optional=True) is not None, "before_exit": list(log)}
+            seen["after_nested_exit"] = list(log)
+        seen["after_top_exit"] = list(log)
+        out[label] = seen
+    want_log = {"started": ["late callback", "early callback", "early resource"], "failed": ["early callback", "early resource"]}
+    ok = all(out[k]["how"] == ("ComponentStartError" if k == "failed" else "returned") and out[k]["in_nested"]
+             and not out[k]["in_top"] and out[k]["before_exit"] == [] and out[k]["after_nested_exit"] == want_log[k]
+             and out[k]["after_top_exit"] == want_log[k] for k in out)
+    return ok, f"{out}"
+
+
+SCENARIOS = {f.__name__: f for f in (tree_started_in_a_nested_context_belongs_to_it, factory_for_an_iterable_class_releases_its_waiter, component_service_task_keeps_its_teardown_action, callback_registered_from_elsewhere_runs_in_its_own_context, task_started_on_an_outer_context_belongs_to_it, cancelled_exit_with_a_task_still_inside_is_reported, injected_coroutine_in_a_component_waits_like_the_explicit_lookup, same_configuration_object_started_twice, injected_lookups_happen_in_signature_order, closing_anothers_context_leaves_the_closers_own_alone, lookup_made_inside_awaited_after_the_block_is_refused, overridden_default_types_need_not_exist, queued_event_keeps_its_source, failed_adds_of_unusual_shapes_change_nothing, partly_shadowed_factory_releases_its_waiter, refused_resource_of_a_failed_start_leaves_no_callback, registration_during_a_service_tasks_stop, annotations_mean_what_they_say, default_name_is_remapped_only_while_starting, parent_is_the_current_context_itself, refused_entry_changes_nothing, left_from_another_task_is_closed_all_the_same, factories_waiting_on_each_other_complete, nested_tree_publications_release_waiters, timeout_watches_every_tree, every_registration_of_a_component_is_torn_down, generic_alias_types_are_found_by_every_lookup, optional_injection_is_the_optional_lookup, start_value_and_failed_starts, hard_coded_kwargs_reach_the_child_as_they_are,
                                      overriding_signal_has_its_own_event_class, second_half_runs_at_the_outer_teardown, rejected_add_registers_no_callback,
                                      wait_finished_means_completely_finished, dead_iterator_inside_its_block_disturbs_nobody,
                                      racing_lookups_generate_once, failing_factory_leaves_the_current_context_alone,
